@@ -1,10 +1,11 @@
 #!/bin/sh
-# Runs /repo's pinned baseline (guard OFF) and compares with BASELINE.json's stable_pass list.
-cd /repo && cargo nextest run --workspace --no-fail-fast --tool-config-file pb:/w/lib/nextest.toml --profile pb --test-threads 8 --offline >/tmp/baseline.log 2>&1
-python3 - <<'PY'
+# Runs the pinned baseline (guard OFF) of $SY_REPO (default /repo) and compares with BASELINE.json's stable_pass list.
+R=${SY_REPO:-/repo}
+cd "$R" && cargo nextest run --workspace --no-fail-fast --tool-config-file pb:/w/lib/nextest.toml --profile pb --test-threads 8 --offline >/tmp/baseline-$$.log 2>&1
+python3 - "$R" <<'PY'
 import json,xml.etree.ElementTree as ET,sys
 b=json.load(open('/root/.vp/BASELINE.json'))
-t=ET.parse('/repo/target/nextest/pb/junit.xml')
+t=ET.parse(sys.argv[1]+'/target/nextest/pb/junit.xml')
 res={}
 for ts in t.getroot().iter('testsuite'):
     for tc in ts.iter('testcase'):
@@ -14,3 +15,4 @@ print('stable_pass:',len(b['stable_pass']),'not passing:',len(missing))
 for m in missing[:40]: print('  FAIL',m)
 sys.exit(1 if missing else 0)
 PY
+rc=$?; rm -f /tmp/baseline-$$.log; exit $rc
